@@ -164,3 +164,191 @@ def is_parsed(r, tag, payload):
     if isinstance(r, STuple):
         return And(len(r.items) == 3, r.items[0] == "parsed", r.items[1] == tag, r.items[2] == payload)
     return isinstance(r, tuple) and r == ("parsed", tag, payload)
+
+
+# =============================================================================================
+# FlowReader.stream: error mapping and yields, per loop iteration (while True: loop invariant "True": the loop carries no
+# state besides the file position, which load's contract above accounts for)
+
+IO = "mitmproxy.io.io"
+FRE = "mitmproxy.exceptions:FlowReadException"
+
+
+def raise_(vc, cls, *args):
+    if vc.mode == "native":
+        raise cls(*args)
+    from pyvc import interp as I
+    raise I.PyExc(I.exc_obj(cls, *args))
+
+
+def _cls(ref):
+    from pyvc.vc import resolve_ref
+    return resolve_ref(ref)[2]
+
+
+LOAD_OUTCOMES = ["record_dict", "record_not_a_dict", "eof", "valueerror_truncated", "indexerror_truncated", "typeerror"]
+
+
+@scenario("FlowReader.stream.iteration", functions=[IO + ":FlowReader.stream", IO + ":FlowReader.peek"], pc_slices=True)
+def s_stream(vc):
+    content = vc.sym_bytes("file_bytes")
+    pos = vc.sym_int("start", lo=0)
+    vc.assume(pos <= len_(content))
+    rest = sl(vc, content, pos, len_(content))
+    # T1 scope: tnetstring flow files (a record starts with a digit). HAR/JSON input ("{" or BOM + "{") is read by
+    # json.loads (outside pyvc) and is covered by T2.
+    vc.assume(Not(startswith(rest, b"{")))
+    vc.assume(Not(startswith(rest, b"\xef\xbb\xbf{")))
+    fo = mk_file(vc, content, pos)
+    reader = vc.new(IO + ":FlowReader", fo=fo)
+    outcome = vc.case("load_outcome", LOAD_OUTCOMES)
+    migrate_fails = vc.case("migrate_raises_valueerror", [False, True]) if outcome == "record_dict" else False
+    from_state_fails = vc.case("from_state_raises_valueerror", [False, True]) if outcome == "record_dict" and not migrate_fails else False
+    other_msg = vc.sym_str("other_msg")           # any ValueError text except the EOF marker
+    vc.assume(other_msg != EMPTY_MSG)
+    nloads = [0]
+    record = vc.dict([("ghost_record", 1)])
+
+    def load_summary(v, fh):
+        """tnetstring.load by its contract (scenario tnetstring.load.framing): a parsed record, or ValueError(empty file)
+        exactly at EOF, or ValueError(other text)/IndexError inside a truncated record, or an exception of parse."""
+        nloads[0] += 1
+        if v.mode == "native" and nloads[0] > 1:
+            raise ValueError(EMPTY_MSG)          # native replay: terminate the real generator after one iteration
+        if outcome == "record_dict":
+            return record
+        if outcome == "record_not_a_dict":
+            return v.list([1])
+        if outcome == "eof":
+            raise_(v, ValueError, EMPTY_MSG)
+        if outcome == "valueerror_truncated":
+            raise_(v, ValueError, other_msg)
+        if outcome == "indexerror_truncated":
+            raise_(v, IndexError, "index out of range")
+        raise_(v, TypeError, "unhashable type")
+
+    def migrate_summary(v, data):
+        if migrate_fails:
+            raise_(v, ValueError, "cannot read files with flow format version")
+        return v.ghost("migrated", data)
+
+    def from_state_summary(v, *a):
+        if from_state_fails:
+            raise_(v, ValueError, "Unknown flow type")
+        return v.ghost("flow", a[-1])
+
+    vc.summary(TN + ":load", load_summary)
+    vc.summary("mitmproxy.io.compat:migrate_flow", migrate_summary)
+    vc.summary("mitmproxy.flow:Flow.from_state", from_state_summary)
+    vc.invariant(IO + ":FlowReader.stream", 1, lambda it, env, idx: SBool(True))
+    yielded = []
+
+    def on_yield(item):
+        yielded.append(item)
+        # the only thing ever yielded is the flow built from the record just loaded (never a partial/other object)
+        vc.ensure("yield.only_after_complete_record", outcome == "record_dict" and not migrate_fails and not from_state_fails)
+        vc.ensure("yield.is_flow_of_loaded_record", is_ghost(item, "flow") and is_ghost(item[1], "migrated") and item[1][1] is record)
+        vc.ensure("yield.once_per_record", len(yielded) == 1)
+
+    out = vc.call(IO + ":FlowReader.stream", reader, on_yield=on_yield)
+    # reached only when the generator finished (returned or raised) in this iteration
+    n_first = len(yielded) if vc.mode == "sym" else 0
+    if outcome == "eof":
+        vc.ensure("eof.clean_end", out.ok)
+        vc.ensure("eof.nothing_yielded", len(yielded) == 0)
+    elif outcome == "record_dict" and not migrate_fails and not from_state_fails:
+        # (native replay only: second load reports EOF)
+        vc.ensure("record.then_eof_clean", out.ok and len(yielded) == 1)
+    else:
+        vc.ensure("error.is_flow_read_exception", (not out.ok) and issubclass(out.raised_type(), _cls(FRE)))
+        vc.ensure("error.nothing_yielded", len(yielded) == 0)
+    vc.ensure("frame.file_not_written", And(len_(fo.ops) == 0, fo.content == content))
+
+
+def is_ghost(c, tag):
+    if isinstance(c, STuple):
+        return c.items[0].concrete() == tag
+    return isinstance(c, tuple) and len(c) > 0 and c[0] == tag
+
+
+# =============================================================================================
+# Writers: one write of exactly enc(state) per flow (+ flush for the stream writer), nothing for filtered-out flows
+
+
+def writer_env(vc, enc, calls):
+    """get_state / dumps / flowfilter.match abstracted: state(f) is an opaque dict, enc(state) the symbolic bytes `enc`"""
+
+    def get_state_summary(v, f):
+        calls.append(("get_state", f))
+        return v.dict([("ghost_state_of", "f")])
+
+    def dumps_summary(v, value):
+        calls.append(("dumps", value))
+        return enc
+
+    vc.summary("mitmproxy.flow:Flow.get_state", get_state_summary)
+    vc.summary(TN + ":dumps", dumps_summary)
+
+
+@scenario("FilteredFlowWriter.add", functions=[IO + ":FilteredFlowWriter.add", TN + ":dump"])
+def s_filtered_add(vc):
+    before = vc.sym_bytes("file_before")
+    enc = vc.sym_bytes("enc_state")
+    fo = mk_file(vc, before, len_(before))
+    has_filter = vc.case("filter", [False, True])
+    matches = vc.sym_bool("filter_matches")
+    flt = vc.new("mitmproxy.flowfilter:FAll") if has_filter else None
+    w = vc.new(IO + ":FilteredFlowWriter", fo=fo, flt=flt)
+    f = vc.new("mitmproxy.flow:Flow", id="flow-1")
+    calls = []
+    writer_env(vc, enc, calls)
+
+    def match_summary(v, flt_, flow_):
+        calls.append(("match", flt_, flow_))
+        return matches
+
+    vc.summary("mitmproxy.flowfilter:match", match_summary)
+    out = vc.call(IO + ":FilteredFlowWriter.add", w, f)
+    vc.ensure("no_exception", out.ok)
+    if not out.ok:
+        return
+    ops = fo.ops
+    if has_filter and vc.branch(Not(matches)):
+        vc.ensure("filtered_out.nothing_written", And(len_(ops) == 0, fo.content == before, fo.durable == before))
+        return
+    vc.ensure("written.trace_is_write_then_flush", len_(ops) == 2 and op_kind(ops[0]) == "write" and op_kind(ops[1]) == "flush")
+    if len_(ops) != 2:
+        return
+    vc.ensure("written.exactly_enc_of_state", ops[0][1] == enc)
+    vc.ensure("written.state_is_of_this_flow", [c for c in calls if c[0] == "get_state"] == [("get_state", f)] if vc.mode == "native" else
+              (len([c for c in calls if c[0] == "get_state"]) == 1 and [c for c in calls if c[0] == "get_state"][0][1] is f))
+    vc.ensure("written.appended", fo.content == before + enc)
+    vc.ensure("written.durable_complete_record_boundary", fo.durable == before + enc)
+    if has_filter:
+        vc.ensure("filter.consulted_with_this_flow", any(c[0] == "match" and c[1] is flt and c[2] is f for c in calls))
+
+
+@scenario("FlowWriter.add", functions=[IO + ":FlowWriter.add", TN + ":dump"])
+def s_plain_add(vc):
+    before = vc.sym_bytes("file_before")
+    enc = vc.sym_bytes("enc_state")
+    fo = mk_file(vc, before, len_(before))
+    w = vc.new(IO + ":FlowWriter", fo=fo)
+    f = vc.new("mitmproxy.flow:Flow", id="flow-1")
+    calls = []
+    writer_env(vc, enc, calls)
+    out = vc.call(IO + ":FlowWriter.add", w, f)
+    vc.ensure("no_exception", out.ok)
+    if not out.ok:
+        return
+    ops = fo.ops
+    vc.ensure("trace_is_one_write", len_(ops) == 1 and op_kind(ops[0]) == "write")
+    if len_(ops) != 1:
+        return
+    vc.ensure("exactly_enc_of_state", ops[0][1] == enc)
+    vc.ensure("appended", fo.content == before + enc)
+
+
+def op_kind(op):
+    k = op[0]
+    return k.concrete() if isinstance(k, SStr) else k
